@@ -14,7 +14,7 @@ RULE = ("seeded models with random cost rates (incl. 0), absence patterns and ru
 ASSUMPTIONS = ["unit_time = 1", "models <= 8 tasks"]
 LEVEL_TEXT = "Seeded exploration; the full cost hierarchy is recomputed from the state logs for every step of every run."
 LEVEL_NOTE = "Trusted: the recomputation in the oracle; sampling evidence only."
-PROBES = ["history_runs", "charged_worker_step", "charged_facility_step", "zero_cost_working_resource", "absence_step_zero_cost",
+PROBES = ["history_runs", "edit_runs", "charged_worker_step", "charged_facility_step", "zero_cost_working_resource", "absence_step_zero_cost",
           "individually_absent_holder_not_charged"]
 
 
@@ -33,6 +33,13 @@ def gen(rng, tier):
     spec = C.forward_spec(rng, tier, focus)
     if rng.random() < 0.3:
         spec["history"] = {"k": rng.randint(0, 8), "state": rng.random() < 0.5, "log": rng.random() < 0.5}
+    elif rng.random() < 0.2:
+        ed = [rng.randint(0, 10) for _ in range(rng.randint(1, 4))]
+        if rng.random() < 0.5 and spec["cfg"].get("absence"):
+            ed.append(spec["cfg"]["absence"][0])  # a step that is already registered
+        if rng.random() < 0.4:
+            ed.append(ed[0])  # a duplicate
+        spec["edit"] = ed
     return spec
 
 
@@ -41,6 +48,15 @@ def extra_candidates(spec):
         c = dict(spec)
         c.pop("history")
         yield c
+    if spec.get("edit"):
+        c = dict(spec)
+        c.pop("edit")
+        yield c
+        for i in range(len(spec["edit"])):
+            if len(spec["edit"]) > 1:
+                c = dict(spec)
+                c["edit"] = spec["edit"][:i] + spec["edit"][i + 1:]
+                yield c
 
 
 def close(a, b, exact):
@@ -140,6 +156,13 @@ def run(spec):
             rec2, out2 = scen.simulate(tr.project, cfg2, want_snap=False)
             res.steps += rec2.n_recorded
     exact = spec.get("profile", {}).get("alphabet") == "dyadic"
+    if spec.get("edit") and tr.out.ok:
+        # log edit after the run: every level must still add up (inserted steps are zero-cost steps)
+        from .. import director as D_
+        res.count("edit_runs")
+        o = D_.call(lambda: tr.project.insert_absence_time_list(list(spec["edit"])))
+        steps_t = None
+        tr.absence = set()  # after the edit, log indices no longer equal simulation times: absence steps are zero-cost anyway
     tot, n = check_logs(res, tr.project, tr.ix, tr.absence, exact, steps_t)
     for kind, groups in (("team", [(tm, tm.worker_list) for tm in tr.ix.teams]), ("workplace", [(wp, wp.facility_list) for wp in tr.ix.wps])):
         for g, members in groups:
